@@ -523,11 +523,12 @@ func NewAudioPackager() (AudioPackager, error) {
 
 func (v *audioPackager) Encode(frame *AudioFrame) (tag []byte, err error) {
 	audioTagHeader := []byte{
-		byte(frame.SoundFormat)<<4 | byte(frame.SoundRate)<<2 | byte(frame.SoundSize)<<1 | byte(frame.SoundType),
+		byte(frame.SoundFormat)<<4 | (byte(frame.SoundRate)&0x03)<<2 | byte(frame.SoundSize)<<1 | byte(frame.SoundType),
 	}
 
 	// For Opus, we put the sampling rate after trait,
 	// so we set the sound rate in audio tag to 0.
+	// @remark The Opus sampling rate(8, 12, 16, 24, 48) is wider than the 2bits sound rate.
 	if frame.SoundFormat == AudioCodecOpus {
 		audioTagHeader[0] &= 0xf3
 	}
